@@ -6,18 +6,33 @@
 (* enumerates function x template of its class x shape x dtype x seed and      *)
 (* reports catalogue entries the specification has no template for.           *)
 EXTENDS ArrayFnNumCat, Json, IOUtils, Integers
-CONSTANTS Seeds, DTs, ShAll
+CONSTANTS Seeds, DTs, ShAll, InLays, OutLays, KwKinds, KwShapes, KwDC
 Cat == JsonDeserialize(IOEnv.CAT)
 Names(k) == {Cat[k][j] : j \in 1..Len(Cat[k])}
 Catalogue == Names("handled") \cup Names("unsupported") \cup Names("default") \cup Names("methods") \cup Names("extra")
 KindOfFn(fn) == IF fn \in Names("handled") THEN "handled" ELSE IF fn \in Names("unsupported") THEN "unsupported"
-                ELSE IF fn \in Names("default") THEN "default" ELSE "method"
+                ELSE IF fn \in Names("default") THEN "default"
+                ELSE IF fn \in Names("overridden_methods") THEN "override" ELSE "method"
+\* keywords (parameters with a default) of NumPy's own signature of fn
+SigKw(fn) == (IF fn \in DOMAIN Cat.sig THEN {Cat.sig[fn][j] : j \in 1..Len(Cat.sig[fn])} ELSE {}) \cup DocKw(fn)
 VARIABLE c
 Init == c = <<>>
+Case(g, fn, t, sh, dt, sd, li, lo, kw, kv, dc) ==
+  [layer |-> "C", fn |-> fn, cls |-> Groups[g].cls, t |-> t, sh |-> sh, dt |-> dt, sd |-> sd, kind |-> KindOfFn(fn),
+   li |-> li, lo |-> lo, tg |-> HasTarget(Groups[g].cls, t), kw |-> kw, kv |-> kv, dc |-> dc]
 Next == /\ c = <<>>
         /\ \/ \E g \in GroupIdx : \E fn \in Groups[g].fns \cap Catalogue, t \in Groups[g].t, dt \in DTs, sd \in Seeds,
-                 sh \in (IF Groups[g].sv THEN ShAll ELSE {"-"}) :
-                 c' = [layer |-> "C", fn |-> fn, cls |-> Groups[g].cls, t |-> t, sh |-> sh, dt |-> dt, sd |-> sd, kind |-> KindOfFn(fn)]
+                 sh \in (IF Groups[g].sv THEN ShAll ELSE {"-"}), li \in InLays :
+                 \E lo \in (IF HasTarget(Groups[g].cls, t) THEN OutLays ELSE {"C"}) :
+                    c' = Case(g, fn, t, sh, dt, sd, li, lo, "", "", "plain")
+           \* keyword completeness: function x keyword of NumPy's signature x value class x data class, on sizes above
+           \* NumPy's small-array thresholds
+           \/ \E g \in GroupIdx : \E fn \in {f \in Groups[g].fns \cap Catalogue : KindOfFn(f) \in KwKinds}, dt \in DTs, dc \in KwDC,
+                 sh \in (IF Groups[g].sv THEN KwShapes ELSE {"-"}) :
+                 \E kw \in SigKw(fn) \cap DOMAIN KwVal : \E kv \in KwVal[kw] :
+                    (dc # "nan" \/ dt # "i") /\ c' = Case(g, fn, KwBase(g), sh, dt, 0, "C", "C", kw, kv, dc)
+           \/ \E fn \in {f \in Catalogue : KindOfFn(f) \in KwKinds} : \E kw \in SigKw(fn) \ (DOMAIN KwVal \cup KwCoveredElsewhere) :
+                 c' = [layer |-> "K", fn |-> fn, kw |-> kw, kind |-> KindOfFn(fn)]
            \/ \E fn \in Catalogue \ Known : c' = [layer |-> "U", fn |-> fn, kind |-> KindOfFn(fn)]
            \/ \E fn \in {f \in Known \ Catalogue : SubSeq(f, 1, 3) = "np."} : c' = [layer |-> "X", fn |-> fn, kind |-> "absent"]
 Spec == Init /\ [][Next]_c
